@@ -19,6 +19,9 @@ CHECKS = {
  "C05": dict(design="3/C05", technique="exhaustive enumeration of effect x grouping expressions on fully crossed and holed frames; block-structure invariant and rank/span comparison with the complete-indicator reference",
    text="Bounded exhaustive model checking on the real design_matrices: every effect expression of the pool (with and without 0 +) crossed with every grouping expression (g, g:h, h:g, g + h, g/h, C(k)) and pairs of terms sharing a factor, on fully crossed frames for 4 (thorough: all 32) level-count vectors over {2,3} and on frames with missing cells: every block must be [cell indicator] x [effect columns] in lexicographic cell order with the effect columns its labels announce, and the columns of one grouping factor must be independent and span all group-by-cell means.",
    note="Trusts SVD rank with gap check and the reference coding; the 8 effect expressions for which the library's simplified coding rule fails are recorded findings (KNOWN_FINDINGS.txt), matched by effect expression, clause and signature."),
+ "C06": dict(design="3/C06", technique="exhaustive enumeration of formulas x row multisets of the training frame; differential comparison of evaluate_new_data with the training rows",
+   text="Bounded exhaustive model checking on the real code: for every formula of the pool (every stateful transform alone, nested, interacting; C/T/S with options; ordered categoricals; a user-registered transform; group-specific terms) on two dtype variants of an 8-row frame, evaluate_new_data is run on every row sequence of length <= 2 (<= 3 thorough), every leave-one-level-out subset, the frame, its reverse and a triplicated frame, and must reproduce exactly the corresponding training rows for the common and group matrices.",
+   note="Trusts numpy closeness at rtol 1e-9; frames containing values not in the training frame are C10's business."),
 }
 NOT_YET = {}
 props = [json.loads(l) for l in open(os.path.join(V, "properties.jsonl"))]
